@@ -92,6 +92,9 @@ func runCheck(w *World, o *checkOpts, t0 time.Time) int {
 	if o.tier == "thorough" {
 		cfg.fastSec, cfg.fullSec = 20, 180
 	}
+	if v := os.Getenv("GOVC_TIMEOUTS"); v != "" { // testing aid: "fast,full" seconds
+		fmt.Sscanf(v, "%d,%d", &cfg.fastSec, &cfg.fullSec)
+	}
 	if o.keep != "" {
 		os.MkdirAll(o.keep, 0o755)
 		cfg.tmp, cfg.keepFiles = o.keep, true
@@ -120,6 +123,42 @@ func runCheck(w *World, o *checkOpts, t0 time.Time) int {
 		}()
 	}
 	wg.Wait()
+	// Second chance for obligations that ran out of time (never for refuted
+	// ones): the same queries with longer time-outs and the machine to
+	// themselves, so that load on the host cannot turn a proved obligation
+	// into an alarm. Obligations recorded as open known findings are left.
+	{
+		kf := loadKnownFindings()
+		cfg2 := *cfg
+		cfg2.fastSec, cfg2.fullSec = cfg.fastSec*3, cfg.fullSec*4
+		for _, jr := range results {
+			if jr == nil || jr.Err != "" {
+				continue
+			}
+			var again []*Obligation
+			for _, ob := range jr.Obls {
+				st := ob.Result.Status
+				if (st == "timeout" || st == "unknown") && ob.Kind != "vacuity" && kf.open(o.property, ob.ID) == nil {
+					again = append(again, ob)
+				}
+			}
+			if len(again) == 0 {
+				continue
+			}
+			jr2 := *jr
+			jr2.Obls = again
+			first := map[*Obligation]Result{}
+			for _, ob := range again {
+				first[ob] = ob.Result
+			}
+			dischargeAll(&cfg2, &jr2, sem)
+			for _, ob := range again {
+				ob.Result.Secs += first[ob].Secs
+				ob.Result.Attempt = append([]string{fmt.Sprintf("first pass: %s after %.1fs; retried with time-outs %ds/%ds", first[ob].Status, first[ob].Secs, cfg2.fastSec, cfg2.fullSec)}, ob.Result.Attempt...)
+				w.retried++
+			}
+		}
+	}
 	return report(w, o, results, time.Since(t0).Seconds())
 }
 
@@ -170,6 +209,7 @@ type oblReport struct {
 	Status string  `json:"status"`
 	Solver string  `json:"solver,omitempty"`
 	Secs   float64 `json:"secs"`
+	MaxQ   float64 `json:"slowest_query_secs,omitempty"`
 	Pos    string  `json:"pos,omitempty"`
 }
 
@@ -261,7 +301,7 @@ func report(w *World, o *checkOpts, results []*JobResult, wall float64) int {
 			if ob.Pos.IsValid() {
 				pos = fmt.Sprintf("%s:%d", strings.TrimPrefix(ob.Pos.Filename, w.repo+"/"), ob.Pos.Line)
 			}
-			all = append(all, oblReport{ID: ob.ID, Kind: ob.Kind, Clause: ob.Desc, Status: ob.Result.Status, Solver: ob.Result.Solver, Secs: ob.Result.Secs, Pos: pos})
+			all = append(all, oblReport{ID: ob.ID, Kind: ob.Kind, Clause: ob.Desc, Status: ob.Result.Status, Solver: ob.Result.Solver, Secs: ob.Result.Secs, MaxQ: ob.Result.MaxQ, Pos: pos})
 			if ob.Bounded {
 				bounded = append(bounded, ob)
 				if ob.Result.Status != "unsat" {
@@ -417,6 +457,7 @@ func writeEvidence(w *World, o *checkOpts, in evidenceInput) {
 		"abstracted_calls":         in.abstracted,
 		"not_under_contract":       notUnder,
 		"deferred_to_thorough":     in.deferred,
+		"retried_with_longer_timeouts": w.retried,
 		"unproved_swept":           in.unproved,
 		"vacuity_guards_sat":       in.vacuityOK,
 		"undecided":                in.undecided,
